@@ -115,8 +115,7 @@ func c05Connect(c c05Conn) ([]byte, error) {
 	ctx, cancel := ctxTimeout(5 * time.Second)
 	defer cancel()
 	_, err := cli.Connect(ctx, string(c.ClientID), opts...)
-	cli.Close()
-	<-cli.Done()
+	c05CloseWait(cli)
 	return first, err
 }
 
@@ -132,10 +131,37 @@ func validNoNul(b []byte) bool {
 	return true
 }
 
+// c05Fails turns every failure of the implementation to behave inside a scenario (a session that cannot be
+// established, a request that is not answered, a reader that does not finish) into an observation
+// attributed to that scenario (meta.ImplViolations, treated as V) instead of a harness abort. After a few
+// of them in one family the rest of the family is skipped: each costs a timeout.
+type c05Fails struct {
+	m *meta
+	n map[string]int
+}
+
+var c05F *c05Fails
+
+func (f *c05Fails) add(family, what string, c interface{}) {
+	f.n[family]++
+	f.m.ImplViolations = append(f.m.ImplViolations, map[string]interface{}{"family": family, "what": what, "case": c})
+}
+
+func (f *c05Fails) tooMany(family string) bool { return f.n[family] >= 3 }
+
+func c05CloseWait(cli *mqtt.BaseClient) {
+	cli.Close()
+	select {
+	case <-cli.Done():
+	case <-time.After(20 * time.Second):
+	}
+}
+
 func runC05(cfg *runCfg) error {
 	r := rand.New(rand.NewSource(cfg.seed))
 	cf := newCasesFile("C05", "Codec", "SpecDecode", "Inbound", "Parse", "C05Flows", "CheckC05")
 	m := &meta{Property: "C05", Distribution: map[string]interface{}{}, Families: map[string][]interface{}{}}
+	c05F = &c05Fails{m: m, n: map[string]int{}}
 	scale := 1
 	if cfg.tier != "quick" {
 		scale = 8
@@ -164,7 +190,11 @@ func runC05(cfg *runCfg) error {
 		}
 		obs, err := c05Connect(c)
 		if err != nil {
-			return fmt.Errorf("connect failed: %v", err)
+			c05F.add("conn", fmt.Sprintf("Connect failed: %v", err), fmt.Sprintf("%+v", c))
+			if c05F.tooMany("conn") {
+				break
+			}
+			continue
 		}
 		connCases = append(connCases, cTuple(c.coq(), c05Z(obs)))
 		dist["connect"]++
@@ -199,7 +229,11 @@ func runC05(cfg *runCfg) error {
 		max := []int{0, 0, 120, 1, 128}[r.Intn(5)]
 		s, err := newSession(false, autoAck)
 		if err != nil {
-			return err
+			c05F.add("pub", fmt.Sprintf("session could not be established: %v", err), nil)
+			if c05F.tooMany("pub") {
+				break
+			}
+			continue
 		}
 		qos := byte(r.Intn(3))
 		if r.Intn(12) == 0 {
@@ -234,8 +268,7 @@ func runC05(cfg *runCfg) error {
 				w = append(w, e.Pkt)
 			}
 		}
-		s.cli.Close()
-		<-s.cli.Done()
+		c05CloseWait(s.cli)
 		wireID := reqID
 		if qos >= 1 && qos <= 2 && len(w) > 0 {
 			wireID = msg.ID // filled in by the library when it was zero
@@ -268,9 +301,13 @@ func runC05(cfg *runCfg) error {
 	// ---------- sub / unsub ----------
 	var subCases, unsubCases []string
 	for i := 0; i < 80*scale; i++ {
+		if c05F.tooMany("sub") {
+			break
+		}
 		s, err := newSession(false, autoAck)
 		if err != nil {
-			return err
+			c05F.add("sub", fmt.Sprintf("session could not be established: %v", err), nil)
+			continue
 		}
 		n := 1 + r.Intn(5)
 		var subs []mqtt.Subscription
@@ -291,19 +328,16 @@ func runC05(cfg *runCfg) error {
 		_, e1 := s.cli.Subscribe(ctx, append([]mqtt.Subscription{}, subs...)...)
 		e2 := s.cli.Unsubscribe(ctx, topics...)
 		cancel()
-		if e1 != nil || e2 != nil {
-			return fmt.Errorf("subscribe/unsubscribe failed: %v %v", e1, e2)
-		}
 		var w [][]byte
 		for _, e := range s.snapshot() {
 			if e.Kind == "write" {
 				w = append(w, e.Pkt)
 			}
 		}
-		s.cli.Close()
-		<-s.cli.Done()
-		if len(w) != 2 {
-			return fmt.Errorf("expected 2 writes, got %d", len(w))
+		c05CloseWait(s.cli)
+		if e1 != nil || e2 != nil || len(w) != 2 {
+			c05F.add("sub", fmt.Sprintf("Subscribe returned %v, Unsubscribe returned %v, %d packets written (acknowledging broker)", e1, e2, len(w)), fmt.Sprintf("%v", subs))
+			continue
 		}
 		subCases = append(subCases, cTuple(cListInline(cs), c05Z(w[0])))
 		unsubCases = append(unsubCases, cTuple(cListInline(ts), c05Z(w[1])))
@@ -327,9 +361,13 @@ func runC05(cfg *runCfg) error {
 	// ---------- small packets: PINGREQ, DISCONNECT, and the reader's acknowledgements ----------
 	var smallCases []string
 	for i := 0; i < 30*scale; i++ {
+		if c05F.tooMany("small") {
+			break
+		}
 		s, err := newSession(true, autoAck)
 		if err != nil {
-			return err
+			c05F.add("small", fmt.Sprintf("session could not be established: %v", err), nil)
+			continue
 		}
 		id1 := uint16([]int{1, 255, 256, 65535, r.Intn(65536)}[r.Intn(5)])
 		id2 := uint16(1 + r.Intn(65535))
@@ -337,15 +375,16 @@ func runC05(cfg *runCfg) error {
 		s.conn.send(encPublish(inMsg{Topic: []byte("t"), QoS: 2, ID: id2, Payload: []byte{2}}))
 		s.conn.send(encID(0x62, id2))
 		ctx, cancel := ctxTimeout(5 * time.Second)
+		smallCase := map[string]interface{}{"broker_sends": fmt.Sprintf("PUBLISH(q1,id%d) PUBLISH(q2,id%d) PUBREL(%d), then answers PINGREQ", id1, id2, id2)}
 		if err := s.cli.Ping(ctx); err != nil {
-			return err
+			c05F.add("small", fmt.Sprintf("Ping behind three inbound packets failed: %v", err), smallCase)
 		}
 		// the PINGRESP is behind the three inbound packets: all acknowledgements are written by now
 		if err := s.cli.Disconnect(ctx); err != nil {
-			return err
+			c05F.add("small", fmt.Sprintf("Disconnect failed: %v", err), smallCase)
 		}
 		cancel()
-		<-s.cli.Done()
+		c05CloseWait(s.cli)
 		var w []string
 		for _, e := range s.snapshot() {
 			if e.Kind == "write" {
@@ -393,7 +432,8 @@ func runC05(cfg *runCfg) error {
 			var rec interface{}
 			s, err := newSession(false, autoAck)
 			if err != nil {
-				return err
+				c05F.add("big", fmt.Sprintf("session could not be established: %v", err), nil)
+				continue
 			}
 			msg := &mqtt.Message{Topic: "big", Payload: make([]byte, n), QoS: mqtt.QoS(qos), ID: 7}
 			ctx, cancel := ctxTimeout(60 * time.Second)
@@ -410,8 +450,7 @@ func runC05(cfg *runCfg) error {
 				total = s.conn.wlens[1]
 			}
 			s.conn.mu.Unlock()
-			s.cli.Close()
-			<-s.cli.Done()
+			c05CloseWait(s.cli)
 			if len(prefix) > 16 {
 				prefix = prefix[:16]
 			}
@@ -434,17 +473,22 @@ func runC05(cfg *runCfg) error {
 		if r.Intn(5) == 0 {
 			im.Topic = append(im.Topic, []byte{0xE6, 0x97, 0xA5, 0xF0, 0x9F, 0x98, 0x80}...)
 		}
+		if c05F.tooMany("inpub") {
+			break
+		}
 		s, err := newSession(true, autoAck)
 		if err != nil {
-			return err
+			c05F.add("inpub", fmt.Sprintf("session could not be established: %v", err), nil)
+			continue
 		}
 		s.conn.send(encPublish(im))
 		if im.QoS == 2 {
 			s.conn.send(encID(0x62, im.ID))
 		}
 		s.conn.finish()
-		if !s.waitDone(5 * time.Second) {
-			return fmt.Errorf("reader did not finish")
+		if !s.waitDone(20 * time.Second) {
+			c05F.add("inpub", "the reader did not finish within 20 s after the peer closed", fmt.Sprintf("%+v", im))
+			s.cli.Close()
 		}
 		var got *mqtt.Message
 		for _, e := range s.snapshot() {
@@ -478,13 +522,15 @@ func runC05(cfg *runCfg) error {
 	for _, n := range inbigs {
 		s, err := newSession(true, nil)
 		if err != nil {
-			return err
+			c05F.add("inbig", fmt.Sprintf("session could not be established: %v", err), nil)
+			continue
 		}
 		pkt := encPublish(inMsg{Topic: []byte("big"), QoS: 0, Payload: make([]byte, n)})
 		s.conn.send(pkt)
 		s.conn.finish()
 		if !s.waitDone(60 * time.Second) {
-			return fmt.Errorf("reader did not finish (big inbound)")
+			c05F.add("inbig", "the reader did not finish within 60 s after the peer closed", fmt.Sprintf("QoS 0 PUBLISH with %d payload bytes", n))
+			s.cli.Close()
 		}
 		got := -1
 		for _, e := range s.snapshot() {
@@ -519,6 +565,14 @@ func runC05(cfg *runCfg) error {
 	if err != nil {
 		return err
 	}
+	nInread, err := c05Inread(cfg, r, cf, m, dist, scale)
+	if err != nil {
+		return err
+	}
+	nParked, err := c05Parked(cfg, r, cf, m, dist, scale)
+	if err != nil {
+		return err
+	}
 
 	total := 0
 	keys := []string{}
@@ -527,10 +581,10 @@ func runC05(cfg *runCfg) error {
 		keys = append(keys, k)
 	}
 	sort.Strings(keys)
-	total = len(connCases) + len(pubCases) + len(subCases) + len(unsubCases) + len(smallCases) + len(lenCases) + len(bigCases) + len(inCases) + len(inbigCases) + nInseq + nRetry + nLong + nResub
+	total = len(connCases) + len(pubCases) + len(subCases) + len(unsubCases) + len(smallCases) + len(lenCases) + len(bigCases) + len(inCases) + len(inbigCases) + nInseq + nRetry + nLong + nResub + nInread + nParked
 	m.Evaluations = total
 	m.DistinctNontrivial = len(connCases) + len(pubCases) + len(subCases) + len(inCases) - dist["publish_rejected"] + nInseq + nRetry + nLong + nLong
-	m.Rule = "public API only: Connect with random option combinations (will, credentials, levels, keep-alive), Publish (all QoS/retain/ids, MaxPayloadLen boundaries, invalid QoS), Subscribe/Unsubscribe lists, Ping/Disconnect and the reader's acknowledgements on an in-memory transport; bytes written are compared with the model and decoded by the independent decoder inside Coq; remainingLength at every boundary +-3 and random values; payload lengths across the 1/2/3/4-byte boundaries as header prefix + total length; inbound PUBLISH delivered through the real serve loop; inbound sequences (60 systematic: a QoS 2 PUBLISH, 1-4 packets of one kind with shorter/equal/longer bodies, its PUBREL; random: PUBLISH of all QoS, stray acknowledgements, SUBACKs, PINGRESPs, every QoS 2 message released after 1-4 other packets) fed as one byte stream, the handler's snapshots compared with the independent decoder's reading of the stream; retry handles: QoS 1/2 Publish, Subscribe, Unsubscribe interrupted by a write error / the peer closing / context cancellation at every point of the exchange, the returned ErrorWithRetry retried on a fresh connected BaseClient (and interrupted once more: retry of a retry), every packet handed to every transport decoded inside Coq. length-prefixed fields of 65,534 / 65,535 / 65,536 / 65,537 / 70,000 / 131,072 / 131,073 bytes in every position (CONNECT client id, will topic, will payload, user name, password; every SUBSCRIBE / UNSUBSCRIBE filter position; PUBLISH topic): either rejected (error or recovered panic) with nothing written, or the written packet decodes to the request. re-subscription: Subscribe/Unsubscribe histories through a RetryClient whose broker grants min(requested, cap) (last scenarios: 0x80), connection cut, fresh BaseClient via SetClient, Connect without session, Resubscribe+Retry, once or twice; every packet after the CONNECT of the later connections decoded. distinct_nontrivial = connect + accepted publish + subscribe + inbound cases + inbound sequences + retry scripts + long-field cases + re-subscription scenarios (randomly generated, duplicates not removed: counted conservatively as generated minus rejected)"
+	m.Rule = "public API only: Connect with random option combinations (will, credentials, levels, keep-alive), Publish (all QoS/retain/ids, MaxPayloadLen boundaries, invalid QoS), Subscribe/Unsubscribe lists, Ping/Disconnect and the reader's acknowledgements on an in-memory transport; bytes written are compared with the model and decoded by the independent decoder inside Coq; remainingLength at every boundary +-3 and random values; payload lengths across the 1/2/3/4-byte boundaries as header prefix + total length; inbound PUBLISH delivered through the real serve loop; inbound sequences (60 systematic: a QoS 2 PUBLISH, 1-4 packets of one kind with shorter/equal/longer bodies, its PUBREL; random: PUBLISH of all QoS, stray acknowledgements, SUBACKs, PINGRESPs, every QoS 2 message released after 1-4 other packets) fed as one byte stream, the handler's snapshots compared with the independent decoder's reading of the stream; retry handles: QoS 1/2 Publish, Subscribe, Unsubscribe interrupted by a write error / the peer closing / context cancellation at every point of the exchange, the returned ErrorWithRetry retried on a fresh connected BaseClient (and interrupted once more: retry of a retry), every packet handed to every transport decoded inside Coq. length-prefixed fields of 65,534 / 65,535 / 65,536 / 65,537 / 70,000 / 131,072 / 131,073 bytes in every position (CONNECT client id, will topic, will payload, user name, password; every SUBSCRIBE / UNSUBSCRIBE filter position; PUBLISH topic): either rejected (error or recovered panic) with nothing written, or the written packet decodes to the request. re-subscription: Subscribe/Unsubscribe histories through a RetryClient whose broker grants min(requested, cap) (last scenarios: 0x80), connection cut, fresh BaseClient via SetClient, Connect without session, Resubscribe+Retry, once or twice; every packet after the CONNECT of the later connections decoded. inbound streams delivered in chosen Read segments (several packets in one Read, one packet per Read, boundaries inside fixed headers, random) on a segment transport; messages published through a RetryClient while its retry queue is not empty (during the outage / before Retry()), every field set, compared with the application's request. distinct_nontrivial = connect + accepted publish + subscribe + inbound cases + inbound sequences + retry scripts + long-field cases + re-subscription scenarios + read-segment cases + parked-publish scenarios (randomly generated, duplicates not removed: counted conservatively as generated minus rejected)"
 	_ = context.Background
 	if err := cf.write(cfg.outDir); err != nil {
 		return err
